@@ -429,6 +429,8 @@ class SymReal:
             return r
         if n == 0.5:
             return sym_sqrt(self)
+        if isinstance(n, (float, np.floating)) and abs(float(n) - 1.0 / 3.0) < 1e-15:
+            return sym_cbrt(self)
         raise HarnessError("unsupported power %r" % (n,))
 
     def __rpow__(self, base):
